@@ -42,7 +42,7 @@ CHECKS = {
    note="Trusted: as C14.",
    technique="deterministic simulation: byzantine holder replies against the real client read path, authenticity oracle"),
  "C06": dict(sim="registers", level="exploration", ref="5 C06",
-   text="Seeded search over 2-5 replicas, each a real (SignedRegister, RegisterCrdt) pair, writers with real BLS keys and a pool of operations (authorised, unauthorised signer, forged signature, foreign address, oversized, concurrent, child-before-parent) travelling as op broadcasts and whole-register transfers (verified_merge, verify+merge, verify_with_address) over a simulated transport with reordering, duplication, loss until heal and partitions; adversarial registers arrive only through the verifying entry points. After every delivery each replica's ops are a subset of the independently computed valid set; merge laws are checked on sampled reachable states; after heal and full delivery all replicas hold equal ops and equal reads and every reachable state verifies at every peer; a 'limit' mode drives replicas across the 1024-entry limit.",
+   text="Seeded search over 2-5 replicas, each a real (SignedRegister, RegisterCrdt) pair, writers with real BLS keys and a pool of operations (authorised, unauthorised signer, forged signature, foreign address, oversized, concurrent, child-before-parent) travelling as op broadcasts and whole-register transfers (verified_merge, verify+merge, verify_with_address) over a simulated transport with reordering, duplication, loss until heal and partitions; adversarial registers arrive only through the verifying entry points. After every delivery each replica's ops are a subset of the independently computed valid set; merge laws are checked on sampled reachable states; after heal and full delivery all replicas hold equal ops and equal reads and every reachable state verifies at every peer; a 'limit' mode drives replicas across the 1024-entry limit. Forged kinds include re-addressed, re-parented and reshaped ops (parent hashes moved in front of the value: same crdt node hash, genuine signature).",
    note="Trusted: operation validity is decided from how the sim built the op, never by asking the code; under anyone-can-write every signer is valid; the transport is the simulator.",
    technique="deterministic simulation: simulated lossy/partitioned transport between real CRDT replicas, convergence + validity-set oracle"),
  "C08": dict(sim="fetcher", level="exploration", ref="5 C08",
